@@ -330,6 +330,14 @@ def make_value(spec, ent, ws, loc, attr):
         else:
             v.flat[-1] = float(v.flat[-1]) + 1.0 + spec["seed"] % 3 if attr != "z_cell_delimiters" else float(v.flat[-1]) - 1.0
         return v
+    if k == "near":
+        # a distinct float a hair away from the current one (relative 2**-20, exactly representable for the lattice values the
+        # specs use): an "unchanged? skip the write" short-cut based on a tolerance loses it
+        cur = getattr(ent, attr)
+        if isinstance(cur, bool) or not isinstance(cur, (float, np.floating)) or not np.isfinite(cur):
+            raise LookupError("no float value to nudge")
+        cur = float(cur)
+        return cur + (abs(cur) * 2.0 ** -20 if cur != 0.0 else 2.0 ** -20)
     if k == "falsy":
         cur = getattr(ent, attr)
         if isinstance(cur, str):
